@@ -1,4 +1,4 @@
-import RedisVerif.Lemmas.SortedSetZ3
+import RedisVerif.Lemmas.SortedSetZ4
 import RedisVerif.Model.ExecutorCode
 import RedisVerif.Lemmas.RedisX
 
@@ -184,6 +184,25 @@ theorem sortedset_zadd_lifts (lv : LevelGen) (hlv : LevelOk lv) :
     obtain ⟨z2, h4, h5, h6⟩ := sortedset_zadd_lifts lv hlv ps z1 h2
     exact ⟨z2, by simp [addAll, h1, h4], h5, by rw [h6, h3]; simp [zaddAll]⟩
 
+/-- the loop of `execute_zadd` (sorted_set_ops.rs: per pair the NX / XX / GT / LT tests on the
+    structure's `score()`, then `add`, the `added` / `changed` counters, CH) over the real structure
+    = ZADD of the reference model, for every flag combination and every choice of levels -/
+theorem execute_zadd_loop_refines (lv : LevelGen) (hlv : LevelOk lv) (f : ZFlags) (z : ZS) (hz : ZInv z)
+    (ps : List (BS × Score)) :
+    ∃ z' a c, zaddLoop lv f z ps = some (z', a, c) ∧ ZInv z' ∧
+      iter z'.sl = (zaddAll f (iter z.sl) ps).1 ∧
+      Reply.int (if f.ch then (c : Int) else a) = zaddReply f (zaddAll f (iter z.sl) ps) := by
+  obtain ⟨z', a, c, h1, h2, h3, h4, h5⟩ := zaddLoop_spec hlv f ps hz
+  refine ⟨z', a, c, h1, h2, h3, ?_⟩
+  simp only [zaddReply, iter_eq_keys, h4, h5]
+  split <;> simp
+
+/-- … and the loop of `execute_zrem` = ZREM -/
+theorem execute_zrem_loop_refines (z : ZS) (hz : ZInv z) (ms : List BS) :
+    ∃ z' n, zremLoop z ms = some (z', n) ∧ ZInv z' ∧
+      iter z'.sl = (zremAll (iter z.sl) ms).1 ∧ n = (zremAll (iter z.sl) ms).2 :=
+  zremLoop_spec ms hz
+
 /-! ### non-vacuity: a concrete set built with tall and short nodes -/
 
 /-- a generator that always answers `h` -/
@@ -192,6 +211,13 @@ def lvConst (h : Nat) : LevelGen := fun s => (h, s)
 example : LevelOk (lvConst 3) := fun _ => by simp [lvConst, maxLevel]
 
 example : ZReach ZS.new := .new
+
+-- ZADD z GT CH 5 a 1 b on {a:3, b:2}: a is raised (changed), b is not lowered
+example :
+    ((addAll (lvConst 2) ZS.new [([97], .fin 3), ([98], .fin 2)]).bind (fun z =>
+      zaddLoop (lvConst 1) ⟨false, false, true, false, true⟩ z [([97], .fin 5), ([98], .fin 1)])).map
+      (fun r => (iter r.1.sl, r.2)) = some ([([98], .fin 2), ([97], .fin 5)], 0, 1) := by decide
+
 
 -- a(1) with 3 levels, b(2) with 1, c(0) with 2: level 3, header spans 1 1 2
 example :
